@@ -493,7 +493,7 @@ def _lookup_grain(sesparse, repo="/repo"):
         q, r, _ = ediv(g0, m.gts)
         return z3.And(m.HAS(q), sp[2] > 3)  # ValueError only for a type nibble outside {0,1,2,3}
 
-    return FnContract(FILE, "SparseDisk._lookup_grain", ["C02", "C13"], lambda: LookupModel(sesparse),
+    return FnContract(FILE, "SparseDisk._lookup_grain", ["C02", "C07", "C13"], lambda: LookupModel(sesparse),
                       params=lambda m: {"self": ObjV("self"), "grain": IntV(g0)},
                       requires=lambda m: m.hyps + [g0 >= 0], post=post,
                       raises={"ValueError": raises_cond} if sesparse else {}, case="sesparse" if sesparse else "hosted/cowd", ghost_asserts=ghost,
